@@ -103,6 +103,23 @@ def switch_continuity(ctx, crate):
                    "plane threshold %r, image of the sphere threshold %r: %r" % (Ty, Tl, img), kind="N")
 
 
+def wrap_x(ctx, crate):
+    """N: `ensures_x_is_positive` brings x of [-8, 0) back into [0, 8) by adding 8 and leaves the rest
+    alone (read at 8 points); every route that decomposes a projected position relies on it."""
+    from rules.common import feval, param
+    fn = "ensures_x_is_positive"
+    b = ctx.anchor(crate, fn, "wrap-x")
+    if b is None: return
+    e = Engine(crate); r = e.run(fn); ctx.functions |= e.visited_fns
+    pn = b.param_names()
+    bad = []
+    for x in (-8.0, -7.5, -2.0, -1e-16, 0.0, 1e-300, 3.25, 7.999):
+        v = feval(r.ret, {param(pn[0]): x}, e) if r.returns else None
+        want = x + 8.0 if x < 0.0 else x
+        if v is None or v != want: bad.append((x, v, want))
+    ctx.report("wrap-x", fn + ":x+8-iff-negative", not bad, "x + 8 for x < 0, x otherwise, at 8 points" if not bad else "ensures_x_is_positive(%r) = %r, expected %r" % bad[0], at=b.span, kind="N")
+
+
 def pole_guard(ctx, crate):
     """N: in `deproj_collignon` the longitude offset is divided by t = sqrt(3(1 - |z|)) unless t is
     below a threshold.  Where the division is skipped the returned longitude is the centre of the
@@ -179,6 +196,7 @@ def run(ctx):
     edge_clamp(ctx, crate)
     pole_guard(ctx, crate)
     switch_continuity(ctx, crate)
+    wrap_x(ctx, crate)
     ctx.not_decided("the projection formulae, inverse property, 1e-14 accuracy (float numerics); base_cell_from_proj_coo on points exactly on a diagonal / facet seam (float ties)")
     from rules import cancellation
     cancellation.check(ctx, ctx.crate("rel"), ['proj', 'unproj', 'base_cell_from_proj_coo'], floor=8)
